@@ -97,7 +97,7 @@ func (fr *Frame) havocWhole(st *State, v string) {
 	fr.fc.set(st, v, nv)
 	if strings.HasPrefix(fr.fc.sortOfVar(v), "(Array") {
 		// objects this function allocated and never let escape cannot be touched by anybody else
-		for r := range fr.fc.localRefs {
+		for _, r := range sortedKeys(fr.fc.localRefs) {
 			fr.fc.addFact("true", sEq(sSel(nv, r), sSel(old, r)))
 		}
 	}
@@ -520,7 +520,7 @@ func (fr *Frame) mergeStates(preds []*ssa.BasicBlock, to *ssa.BasicBlock) *State
 	}
 	out := &State{vars: map[string]string{}}
 	var merged []string
-	for k := range keys {
+	for _, k := range sortedKeys(keys) {
 		var terms []string
 		same := true
 		for _, p := range preds {
@@ -930,7 +930,8 @@ func (fr *Frame) enterLoop(h *ssa.BasicBlock, li *loopInfo, order []*ssa.BasicBl
 		}
 		fc.frames[nv] = frameInfo{pre: pre, alloc: allocPre, exc: exc, partial: partial}
 		fc.facts = append(fc.facts, Fact{Guard: "true", Term: fmt.Sprintf("(forall ((r Int)) (! (=> %s (= (select %s r) (select %s r))) :pattern ((select %s r))))", sAnd(conds...), nv, pre, nv), Class: "frameq"})
-		for row, idxs := range partial {
+		for _, row := range sortedKeys(partial) {
+			idxs := partial[row]
 			var cs []string
 			for _, ix := range idxs {
 				cs = append(cs, sNot(sEq("j", ix)))
